@@ -279,7 +279,7 @@ func (s *Snapshot) coq(e *Exec) string {
 		}
 		lk = append(lk, fmt.Sprintf("(%s, %s, %s)", x[0], cBytes(hexDecode(x[1])), v))
 	}
-	return fmt.Sprintf("(mkSnap %d %s %s %s %s %s %s %s %s %s %s %s %s %s)", s.Height, sstate, round, cList(pv), cList(vs), cList(dl), cList(ms), cList(vals), cList(pool), cList(owed), cList(owedVal), cList(owedComm), cList(lk), cBool(s.Invariant == ""))
+	return fmt.Sprintf("(mkSnap %d %s %s %s %s %s %s %s %s %s %s %s %s %s %s)", s.Height, sstate, round, cList(pv), cList(vs), cList(dl), cList(ms), cList(vals), cList(pool), cList(owed), cList(owedVal), cList(owedComm), cList(lk), cBool(s.Invariant == ""), cBool(!s.BooksMixed))
 }
 
 func hexDecode(s string) []byte {
